@@ -960,6 +960,17 @@ def verify(cname, cfg, timeout_ms=20000, seed=0, repo_src=None, samples=0):
                 rec["reason"] = reason or "the induction step does not follow"
                 rec["goal"] = lem.name
             res.obligations.append(rec)
+    if c.holder.__dict__.get("lemmas"):
+        from . import induct
+        for lem in induct.false_lemmas():
+            outcome = induct.prove(lem, 5000)
+            accepted = all(st == "proved" for _, st, _, _ in outcome)
+            rec = {"name": f"{c.name}#lemma-selftest:{lem.name}@{cid}/-", "kind": "lemma-selftest", "clause": lem.name, "config": cid,
+                   "path": "-", "status": "unknown" if accepted else "proved", "ms": 0, "hyps": 0, "mode": c.mode, "bounded": False}
+            if accepted:
+                rec["reason"] = "a deliberately wrong lemma was accepted: the lemma prover is vacuous"
+                rec["goal"] = lem.name
+            res.obligations.append(rec)
     n = samples if not res.untranslatable else max(samples, 40)
     if n:
         try:
